@@ -126,6 +126,26 @@ def bucket_means(entries, b):
     return out
 
 
+def matches_some_bucket(sel, got):
+    """is `got` the list of uniform bucket means of `sel` for some bucket size b >= 1?  Only the
+    bucket sizes that give len(got) buckets and whose first mean timestamp fits are tried."""
+    m, k = len(sel), len(got)
+    if k == 0:
+        return True          # every bucket incomplete: any b > m
+    if k > m:
+        return False
+    lo, hi = m // (k + 1) + 1, m // k
+    pre = [0]
+    for t, _ in sel[:hi]:
+        pre.append(pre[-1] + t)
+    for b in range(max(1, lo), hi + 1):
+        if pre[b] // b != got[0][0]:
+            continue
+        if bucket_means(sel, b) == got:
+            return True
+    return False
+
+
 # ---------------------------------------------------------------- spec comparison
 
 def meets_spec(op, code, spec, roles=None):
@@ -187,9 +207,8 @@ def meets_spec(op, code, spec, roles=None):
         if got == []:
             # every bucket incomplete: some b > len(sel)/1 ... any b > len(sel) yields nothing
             return True, ""
-        for b in range(1, len(sel) + 1):
-            if bucket_means(sel, b) == got:
-                return True, ""
+        if matches_some_bucket(sel, got):
+            return True, ""
         return False, "not the uniform bucket means of the lines in range for any bucket size"
     if spec.startswith("~sub "):
         parts = spec.split(" ", 2)
@@ -223,9 +242,8 @@ def meets_spec(op, code, spec, roles=None):
             sel = select(lv, kv["s"], kv["e"])
             if got == []:
                 return True, ""
-            for b in range(1, len(sel) + 1):
-                if bucket_means(sel, b) == got:
-                    return True, ""
+            if matches_some_bucket(sel, got):
+                return True, ""
         if got and any(not in_bounds(t, kv["s"], kv["e"]) for t, _ in got):
             return False, "sample outside the requested bounds"
         return False, "not the uniform bucket means of any stored level's lines in range"
